@@ -375,3 +375,57 @@ Qed.
 
 Lemma extract_all_wf p outs : Forall qwf (map (extract p) outs).
 Proof. induction outs; simpl; constructor; [apply extract_wf|assumption]. Qed.
+
+(** ** Feed genesis import (oracle/genesis.go InitGenesis, after "fix: oracle InitGenesis keeps the
+    order of a feed's exported values"): the exported values (newest first) are stored oldest
+    first, each under its own key, the newest under max(batch counter, n-1).  Not reachable by
+    messages (chain export / import only); modelled here as a pure function, not tied to traces
+    (the genesis group's check covers InitGenesis/ExportGenesis). *)
+Fixpoint import_vals (l : list (Z * fval)) (k lh : Z) (oldest_first : list fval) : list (Z * fval) :=
+  match oldest_first with
+  | [] => l
+  | v :: r => import_vals (set_feed_value l k lh v) (k + 1) lh r
+  end.
+
+Definition genesis_import (bc lh : Z) (vals : list fval) : list (Z * fval) :=
+  let n := Z.of_nat (length vals) in
+  let base := if bc + 1 <? n then n - 1 else bc in
+  import_vals [] (base - (n - 1)) lh (rev vals).
+
+Lemma import_vals_spec lh : 1 <= lh -> forall r l k,
+  keys_below k l -> Z.of_nat (length l) + Z.of_nat (length r) <= lh ->
+  newest_first (import_vals l k lh r) = rev r ++ newest_first l
+  /\ keys_below (k + Z.of_nat (length r)) (import_vals l k lh r).
+Proof.
+  intros Hlh r. induction r as [|v r IH]; intros l k Hk Hlen; simpl import_vals.
+  - simpl. split; [reflexivity|]. eapply keys_below_mono; [|exact Hk]. simpl. lia.
+  - simpl length in Hlen.
+    assert (E : newest_first (set_feed_value l k lh v) = v :: newest_first l).
+    { rewrite newest_first_set_feed_value by exact Hk. f_equal. apply firstn_all2. rewrite newest_first_length. lia. }
+    assert (Hl' : length (set_feed_value l k lh v) = S (length l)).
+    { rewrite <- newest_first_length, E. simpl. rewrite newest_first_length. reflexivity. }
+    destruct (IH (set_feed_value l k lh v) (k + 1)) as [A B].
+    + apply set_feed_value_keys. exact Hk.
+    + rewrite Hl'. lia.
+    + split.
+      * rewrite A, E. simpl. rewrite <- app_assoc. reflexivity.
+      * eapply keys_below_mono; [|exact B]. simpl length. lia.
+Qed.
+
+(** importing what was exported restores exactly the exported values, newest first, and every
+    key is at most max(batch counter, n - 1): the next batch of the context is newer than all *)
+Lemma genesis_import_restores bc lh vals :
+  1 <= lh -> Z.of_nat (length vals) <= lh ->
+  newest_first (genesis_import bc lh vals) = vals
+  /\ keys_below (Z.max bc (Z.of_nat (length vals) - 1) + 1) (genesis_import bc lh vals).
+Proof.
+  intros Hlh Hlen. unfold genesis_import. cbv zeta.
+  set (n := Z.of_nat (length vals)) in *. set (base := if bc + 1 <? n then n - 1 else bc).
+  destruct (import_vals_spec lh Hlh (rev vals) [] (base - (n - 1))) as [A B].
+  - constructor.
+  - rewrite rev_length. simpl. fold n. lia.
+  - split.
+    + rewrite A, rev_involutive. apply app_nil_r.
+    + eapply keys_below_mono; [|exact B]. rewrite rev_length. fold n. unfold base.
+      destruct (bc + 1 <? n) eqn:E; lia.
+Qed.
